@@ -32,7 +32,7 @@ def full(dims, dev):
     return a
 
 
-def explore(report, dims, k, execute, relevant=None, timeout=120, extra_states=(), tag=None):
+def explore(report, dims, k, execute, relevant=None, timeout=120, extra_states=(), tag=None, deep_dims=None, deep_k=None):
     """Runs execute(dev) for every state up to level k; folds verdicts into report.
 
     Violations are attributed to minimal failing states: a failing state that has a failing
@@ -40,6 +40,12 @@ def explore(report, dims, k, execute, relevant=None, timeout=120, extra_states=(
     signature. Signature = canonical JSON of the minimal deviation set.
     """
     devs, skipped = states(dims, k, relevant)
+    if deep_dims and deep_k and deep_k > k:
+        # levels k+1 .. deep_k over a sub-lattice only (the dimensions that meet in the code under test)
+        sub = {n: dims[n] for n in dims if n in deep_dims}
+        more, sk2 = states(sub, deep_k, relevant)
+        devs += [d for d in more if len(d) > k]
+        skipped += sk2
     devs += [d for d in extra_states if d not in devs]
     if tag is not None:
         cases = [dict(d, **{"_": tag}) for d in devs]
